@@ -134,7 +134,26 @@ func (g *dg) val(depth int) string {
 
 func (g *dg) form() string {
 	v := g.val(3)
-	switch g.n(0, 30, "form") {
+	switch g.n(0, 32, "form") {
+	case 31, 32:
+		// a map is enumerated, changed in place (also by operations that find
+		// nothing to change) and enumerated again
+		ops := []string{}
+		for i, n := 0, g.n(1, 4, "nmapops"); i < n; i++ {
+			switch g.n(0, 4, "mapop") {
+			case 0:
+				ops = append(ops, fmt.Sprintf("(dissoc! m2 %q)", g.pick("absent", "nokey", "zzz", "a", "k1")))
+			case 1:
+				ops = append(ops, fmt.Sprintf("(dissoc! m2 '%s)", g.pick("absentsym", "nokey", "b", "alpha")))
+			case 2:
+				ops = append(ops, fmt.Sprintf("(assoc! m2 %q %s)", g.pick("newkey", "a", "q9", "B"), g.val(1)))
+			case 3:
+				ops = append(ops, "(keys m2)")
+			default:
+				ops = append(ops, "(format-string \"{}\" m2)")
+			}
+		}
+		return fmt.Sprintf("(progn (set 'm2 %s) (keys m2) %s (list (keys m2) m2 (json:dump-string m2) (equal? m2 m2)))", g.mapExpr(2), strings.Join(ops, " "))
 	case 28:
 		// listings printed for the user: every name, in a defined order
 		return g.pick("helpform", "(help:help-package-symbols 'user true)", "(help:help-package-symbols 'lisp true)", "(help:help-package-symbols \"json\" true)",
